@@ -705,12 +705,30 @@ pub fn max_batch_case(rng: &mut Rng) -> RPos {
     // king and seven pieces on the first two ranks
     let r1 = rel_rank(us, 1);
     let r2 = rel_rank(us, 2);
-    let kinds = [Piece::King, Piece::Queen, Piece::Rook, Piece::Rook, Piece::Bishop, Piece::Bishop, Piece::Knight, Piece::Knight];
-    let mut files: Vec<i32> = (0..8).collect();
-    rng.shuffle(&mut files);
-    for (i, &pc) in kinds.iter().enumerate() {
-        let r = if rng.chance(1, 2) { r1 } else { r2 };
-        p.sq[idx(files[i], r)] = Some((us, pc));
+    if rng.chance(1, 2) {
+        // castling-ready back rank (king between two rooks with rights, nothing else on it), the
+        // five other pieces on the second rank: 16 mobile men + two EP capturers + castling
+        let kf = rng.range(1, 6) as i32;
+        let lf = rng.range(0, kf as i64 - 1) as i32;
+        let rf = rng.range(kf as i64 + 1, 7) as i32;
+        p.sq[idx(kf, r1)] = Some((us, Piece::King));
+        p.sq[idx(lf, r1)] = Some((us, Piece::Rook));
+        p.sq[idx(rf, r1)] = Some((us, Piece::Rook));
+        p.rights[ci(us)] = [Some(rf as u8), Some(lf as u8)];
+        let kinds = [Piece::Queen, Piece::Bishop, Piece::Bishop, Piece::Knight, Piece::Knight];
+        let mut files: Vec<i32> = (0..8).collect();
+        rng.shuffle(&mut files);
+        for (i, &pc) in kinds.iter().enumerate() {
+            p.sq[idx(files[i], r2)] = Some((us, pc));
+        }
+    } else {
+        let kinds = [Piece::King, Piece::Queen, Piece::Rook, Piece::Rook, Piece::Bishop, Piece::Bishop, Piece::Knight, Piece::Knight];
+        let mut files: Vec<i32> = (0..8).collect();
+        rng.shuffle(&mut files);
+        for (i, &pc) in kinds.iter().enumerate() {
+            let r = if rng.chance(1, 2) { r1 } else { r2 };
+            p.sq[idx(files[i], r)] = Some((us, pc));
+        }
     }
     let k = p.king_sq(us).unwrap();
     // enemy king far away on its back ranks
@@ -794,5 +812,84 @@ pub fn san_ambiguity_case(rng: &mut Rng) -> RPos {
         }
     }
     random_clocks(rng, &mut p, false);
+    p
+}
+
+/// Boxed-in king whose side has (almost) no mobile piece except, possibly, a pinned slider that can
+/// still slide along its pin line: positions where "has a legal move" hinges on a single batch.
+pub fn few_movers_case(rng: &mut Rng) -> RPos {
+    let mut p = RPos::empty();
+    let us = rc(rng);
+    let them = other(us);
+    p.stm = us;
+    // our king in a corner or on an edge
+    let corner = *rng.pick(&[0usize, 7, 56, 63, 1, 6, 8, 15, 48, 55, 57, 62]);
+    p.sq[corner] = Some((us, Piece::King));
+    let (kf, kr) = fr(corner);
+    // enemy king two squares away taking the flight squares
+    let mut placed = false;
+    for _ in 0..30 {
+        let (df, dr) = (rng.range(-2, 2) as i32, rng.range(-2, 2) as i32);
+        if df.abs().max(dr.abs()) == 2 && on(kf + df, kr + dr) {
+            let s = idx(kf + df, kr + dr);
+            if p.sq[s].is_none() {
+                p.sq[s] = Some((them, Piece::King));
+                placed = true;
+                break;
+            }
+        }
+    }
+    if !placed {
+        far_king(rng, &mut p, them, corner);
+    }
+    // a pinned slider of ours: on a line from the king, with an enemy slider behind it
+    let &(df, dr) = rng.pick(&KING_D);
+    let mut ray = Vec::new();
+    let (mut f, mut r) = (kf + df, kr + dr);
+    while on(f, r) {
+        ray.push(idx(f, r));
+        f += df;
+        r += dr;
+    }
+    if ray.len() >= 2 {
+        let a = rng.usize(ray.len() - 1);
+        let b = a + 1 + rng.usize(ray.len() - a - 1);
+        let diag = df != 0 && dr != 0;
+        let along = if diag { Piece::Bishop } else { Piece::Rook };
+        let across = if diag { Piece::Rook } else { Piece::Bishop };
+        if p.sq[ray[a]].is_none() && p.sq[ray[b]].is_none() {
+            let mine = match rng.below(4) {
+                0 => Piece::Queen,
+                1 => across, // pinned and immobile
+                _ => along,  // pinned but mobile along the line
+            };
+            p.sq[ray[a]] = Some((us, mine));
+            p.sq[ray[b]] = Some((them, if rng.chance(1, 3) { Piece::Queen } else { along }));
+        }
+    }
+    // enemy pieces covering the remaining flight squares
+    for _ in 0..rng.below(4) {
+        let s = empty_sq(rng, &mut p);
+        let (_, rr) = fr(s);
+        let mut pc = *rng.pick(&[Piece::Knight, Piece::Bishop, Piece::Rook, Piece::Queen, Piece::Pawn]);
+        if pc == Piece::Pawn && (rr == 0 || rr == 7) {
+            pc = Piece::Knight;
+        }
+        p.sq[s] = Some((them, pc));
+    }
+    // blocked own pawns (immobile)
+    for _ in 0..rng.below(3) {
+        let ff = rng.range(0, 7) as i32;
+        let rr = rng.range(2, 5) as i32;
+        let (a, b) = (idx(ff, rr), idx(ff, rr + fwd(us)));
+        if p.sq[a].is_none() && p.sq[b].is_none() && on(ff, rr + fwd(us)) && rr + fwd(us) != 0 && rr + fwd(us) != 7 {
+            p.sq[a] = Some((us, Piece::Pawn));
+            p.sq[b] = Some((them, Piece::Pawn));
+        }
+    }
+    random_clocks(rng, &mut p, false);
+    if rng.chance(1, 4) {
+        p.half = *rng.pick(&[99, 100]);
+    }
     p
 }
